@@ -427,7 +427,7 @@ class DispHistory(common.Suite):
             def calc(ctx, *a, **k):
                 d = orig(ctx, *a, **k)
                 t = np.zeros((n, 3))
-                t[ctx._moving_indices] = d
+                t[common.get_moving(ctx)] = d
                 events.append(("t", oid, t))
                 return d
 
